@@ -1,7 +1,7 @@
 ----------------------------- MODULE Partition -----------------------------
 (***************************************************************************)
-(* RFC 5052 section 9.1 block partitioning, transcribed from the RFC text, *)
-(* plus the derived byte layout used by every other specification.         *)
+(* Block partitioning: PartitionCore.tla (RFC 5052 section 9.1 verbatim)   *)
+(* plus the recursive operators and the C07 theorems.                      *)
 (*                                                                         *)
 (*   Input:  B  maximum source block length (symbols)                      *)
 (*           L  transfer length (octets)                                   *)
@@ -15,47 +15,7 @@
 (* compared against (property C07) and the source of the block structure   *)
 (* used by the sender and receiver monitors (C01, C02, C08, C16).          *)
 (***************************************************************************)
-EXTENDS Naturals, Sequences
-
-Ceil(a, b)  == (a + b - 1) \div b
-Floor(a, b) == a \div b
-Min(a, b)   == IF a < b THEN a ELSE b
-Max(a, b)   == IF a > b THEN a ELSE b
-
-\* number of symbols and number of blocks
-T(L, E)    == Ceil(L, E)
-N(L, E, B) == Ceil(T(L, E), B)
-
-ALarge(L, E, B)  == IF N(L, E, B) = 0 THEN 0 ELSE Ceil(T(L, E), N(L, E, B))
-ASmall(L, E, B)  == IF N(L, E, B) = 0 THEN 0 ELSE Floor(T(L, E), N(L, E, B))
-NbLarge(L, E, B) == IF N(L, E, B) = 0 THEN 0 ELSE T(L, E) - ASmall(L, E, B) * N(L, E, B)
-
-\* the 4-tuple flute's block_partitioning returns
-Quad(L, E, B) == <<ALarge(L, E, B), ASmall(L, E, B), NbLarge(L, E, B), N(L, E, B)>>
-
-\* number of source symbols of block b (0-based)
-BlockSyms(L, E, B, b) == IF b < NbLarge(L, E, B) THEN ALarge(L, E, B) ELSE ASmall(L, E, B)
-
-\* number of symbols in blocks before block b
-SymsBefore(L, E, B, b) ==
-    IF b <= NbLarge(L, E, B)
-    THEN b * ALarge(L, E, B)
-    ELSE NbLarge(L, E, B) * ALarge(L, E, B) + (b - NbLarge(L, E, B)) * ASmall(L, E, B)
-
-\* byte offset of block b and of symbol (b, esi)
-BlockOffset(L, E, B, b)    == SymsBefore(L, E, B, b) * E
-SymOffset(L, E, B, b, esi) == (SymsBefore(L, E, B, b) + esi) * E
-
-\* byte length of block b: only the last block of the object can be short
-BlockBytes(L, E, B, b) ==
-    LET off == BlockOffset(L, E, B, b)
-        full == BlockSyms(L, E, B, b) * E
-    IN  IF off + full <= L THEN full ELSE IF off >= L THEN 0 ELSE L - off
-
-\* byte length of source symbol (b, esi): only the last symbol can be short
-SymBytes(L, E, B, b, esi) ==
-    LET off == SymOffset(L, E, B, b, esi)
-    IN  IF off + E <= L THEN E ELSE IF off >= L THEN 0 ELSE L - off
+EXTENDS PartitionCore, Sequences
 
 \* run-length encoding of the block byte lengths: <<count, bytes>> runs, zero
 \* counts dropped, adjacent equal lengths merged
@@ -78,10 +38,6 @@ BlockBytesRle(L, E, B) ==
         raw == << <<largeFull, al * E>>, <<smallFull, as * E>>, <<1, last>> >>
         nz  == SelectSeq(raw, LAMBDA r : r[1] > 0)
     IN  IF n = 0 THEN <<>> ELSE MergeRuns(nz)
-
-\* receiver side: maximum source block length rebuilt from the number of
-\* blocks Z carried by the RaptorQ / Raptor scheme specific information
-BFromZ(L, Z, E) == Ceil(Ceil(L, Z), E)
 
 -----------------------------------------------------------------------------
 (* The theorems of property C07, as predicates over one triple.  They are  *)
